@@ -72,3 +72,29 @@ Example C12_nonvacuous_cleaned :
   let r := sample_script 2 3 [[1%Z]] [[[1%Z]; [2%Z]]; [[3%Z]]] in
   output _ r = [[3%Z]; [2%Z]] /\ requests _ r = [1] /\ dup_positions [[1%Z]] (output _ r) = [].
 Proof. vm_compute. auto. Qed.
+
+(* ---- round 4: a generator whose first batch is a VIEW of rows [a, a + bsize) of the caller's history array
+   (`return existing_points[a:a + batch_size]`); Model/Dedup.v Section SampleView models what base.py:113 then does
+   (the redraws are written through the view into the history).  Finding `generator-returns-view-of-history`:
+   the statement of C12 is false of that situation. *)
+
+(* For ANY generator and any budget: every pass finds the whole batch repeated and asks for bsize new points, so the
+   budget is always used up; the caller's history ends up holding the returned batch (all returned points "repeat"). *)
+Theorem C12_view_of_history_exhausts_budget : forall St gen bsize budget a h st, 0 < bsize -> a + bsize <= length h ->
+  view_requests St (sample_view St gen bsize budget a h st) = repeat bsize budget /\
+  window a bsize (view_history St (sample_view St gen bsize budget a h st)) = view_output St (sample_view St gen bsize budget a h st) /\
+  length (view_history St (sample_view St gen bsize budget a h st)) = length h.
+Proof. exact sample_view_exhausts. Qed.
+Print Assumptions C12_view_of_history_exhausts_budget.
+
+(* Witness: judged against the caller's history one pass is enough (requests [2], clean batch); the code asks three
+   times, discards two fresh pairs, returns another batch than the specification and overwrites the history. *)
+Theorem C12_view_of_history_refuted :
+  exists (h : list point) (script : list (list point)),
+    requests _ (sample_script 2 3 h script) = [2] /\
+    dup_positions h (output _ (sample_script 2 3 h script)) = [] /\
+    view_requests _ (sample_view_script 2 3 0 h script) = [2; 2; 2] /\
+    view_history _ (sample_view_script 2 3 0 h script) <> h /\
+    output _ (sample_script 2 3 h script) <> view_output _ (sample_view_script 2 3 0 h script).
+Proof. exact view_of_history_refuted. Qed.
+Print Assumptions C12_view_of_history_refuted.
